@@ -30,7 +30,7 @@ CONSTANTS
     MaxSends,   \* created transactions; the change coin of send i is NBase + i
     MaxTip,     \* blocks mined during a behaviour
     Mat,        \* coinbase maturity (the driver uses the same value)
-    Answers,    \* subset of {"accepted","inmempool","rejected","notifyfail1","notifyfail2"}
+    Answers,    \* subset of {"accepted","inmempool","rejected","notifyfail1","notifyfail2","badlabel"} (badlabel: the request carries a label the store refuses)
     Acts,       \* actions explored
     LockCoins,  \* coins on which lock / lease actions are explored
     MaxHist,
@@ -236,6 +236,19 @@ DryRun(acct, scope, mc) ==
        /\ UNCHANGED <<st, spentBy, sends, tip, locked, leased>>
        /\ Step("DryRun", [acct |-> acct, scope |-> scope, mc |-> mc, elig |-> E], "ok")
 
+(* A transaction is created (signed, neither recorded nor published) whose   *)
+(* change goes to another key scope than the coins come from                 *)
+(* (CreateSimpleTx + WithCustomChangeScope).  In the driver's wallet account  *)
+(* 1 of the legacy scope is an imported, watch-only account, so this also     *)
+(* asks whether "needs no signature" is decided by where the coins are.       *)
+AllScopes == {"bip84", "bip86", "bip49", "bip44"}
+CreateCS(acct, scope, mc, cscope) ==
+    /\ cscope # scope
+    /\ LET E == Eligible(acct, scope, mc) IN
+       /\ E # {}
+       /\ UNCHANGED <<st, spentBy, sends, tip, locked, leased>>
+       /\ Step("CreateCS", [acct |-> acct, scope |-> scope, mc |-> mc, cscope |-> cscope, elig |-> E], "ok")
+
 (* stop and start the wallet: every still-unconfirmed created transaction is *)
 (* offered to the backend again, parents before children                     *)
 Restart ==
@@ -274,6 +287,7 @@ Next ==
     \/ On("SendExplicit") /\ \E acct \in Accts, scope \in Scopes, c \in Base : SendDup(acct, scope, 0, c)
     \/ On("FundOwn") /\ \E acct \in Accts, scope \in Scopes, c \in Base : FundOwn(acct, scope, 1, {c})
     \/ On("DryRun") /\ \E acct \in Accts, scope \in Scopes, mc \in 0..2 : DryRun(acct, scope, mc)
+    \/ On("DryRun") /\ \E acct \in Accts, scope \in Scopes, cscope \in AllScopes : CreateCS(acct, scope, 0, cscope)
     \/ On("Restart") /\ Restart
     \/ On("RestartRej") /\ \E i \in 1..MaxSends : RestartRej(i)
 
